@@ -22,10 +22,12 @@ def run(tier, seed):
                 'not decided: that the reported eigenvalues are the finite generalised eigenvalues when zero time constants are '
                 'present (EIG._reorder is outside the subset; bounded stand-in + known finding F4)')
     items = [(E.store_stats('C08'), None, E.replay_store_stats), (E.find_zero_states('C08'),), (E.reduce_('C08'),), (E.calc_pfactor('C08'), None, E.replay_calc_pfactor),
-             (E.pre_check('C08'), E.WIT_F16, E.replay_pre_check), (E.eig_run('C08'),)]
+             (E.pre_check('C08'), E.WIT_F16, E.replay_pre_check), (E.eig_run('C08'),), (E.calc_as('C08'), None, E.replay_calc_as)]
     # the time constants the state matrix is built from follow parameter changes made after initialisation (Model.set -> dae.Tf)
     from contracts import fn_pu
     items.append((fn_pu.model_set('C08', 'v'), None, fn_pu.replay_model_set))
+    from contracts import fn_sequence as Q
+    items.append((Q.store_tf('C08'), None, Q.replay_store_tf))
     run_contracts(pack, items)
     # L2 instance for n = 3 (the general statement is an induction over a sum binder; see DESIGN 2.6)
     import z3
